@@ -314,7 +314,8 @@ def run_uvalue(prop, tier, replay=None):
                     g = gotmap.get("wc%d" % i, {})
                     events.append({"ev": "UWin", "w": c["w"], "ok": bool(ans.get("ok")), "u": verdict_event(c["u"], 5100),
                                    "gwi": verdict_event(c["gwi"], 5100), "gsh": verdict_event(c["gsh"], 5100),
-                                   "got_u": g.get("u", -1), "got_u_props": g.get("u_props", -1), "got_gwi": g.get("gwi", -1), "got_gsh": g.get("gsh", -1)})
+                                   "got_u": g.get("u", -1), "got_u_props": g.get("u_props", -1), "got_gwi": g.get("gwi", -1), "got_gsh": g.get("gsh", -1),
+                                   "got_gwi_props": g.get("gwi_props", -1), "got_gsh_props": g.get("gsh_props", -1)})
             elif kind == "real":
                 gotmap = {w["name"]: w for w in ans.get("walls", [])}
                 for e in real_wall_events(c):
@@ -343,7 +344,8 @@ def run_uvalue(prop, tier, replay=None):
                     sv = gv if wc.get("g_glshwi") is None else {"k": "exact", "exp": micro(Fraction(str(wc["g_glshwi"]))), "lo": 0, "hi": 0, "tol": 5100}
                     gg = gotmap.get(wc.get("name", ""), {})
                     events.append({"ev": "UWin", "w": w, "ok": bool(ans.get("ok")), "u": uv, "gwi": gv, "gsh": sv, "src": os.path.basename(c),
-                                   "got_u": gg.get("u", -1), "got_u_props": gg.get("u_props", -1), "got_gwi": gg.get("gwi", -1), "got_gsh": gg.get("gsh", -1)})
+                                   "got_u": gg.get("u", -1), "got_u_props": gg.get("u_props", -1), "got_gwi": gg.get("gwi", -1), "got_gsh": gg.get("gsh", -1),
+                                   "got_gwi_props": gg.get("gwi_props", -1), "got_gsh_props": gg.get("gsh_props", -1)})
         # monotonicity: stack 3 -> 6 thickens the insulation, 2 -> 3 adds a layer
         if prop == "C06":
             for key, e in list(by_case.items()):
